@@ -933,6 +933,69 @@ func c06SentPacketBookkeeping(c *Ctx) {
 		"a newly outstanding packet must have a deadline")
 }
 
+// C17.11: the stream's callbacks into the connection (streamSender.onHasStreamData / onHasStreamControlFrame /
+// onStreamCompleted) are made without holding the stream's mutex — the repository states the rule at the call sites
+// ("must be called without holding the mutex"): the framer and the streams map take their own locks and call back into
+// the stream (popStreamFrame, getControlFrame, closeForShutdown), so a callback under the stream mutex is a lock-order
+// inversion that deadlocks under the right schedule.
+func c17CallbacksOutsideStreamMutex(c *Ctx, R string) {
+	n := 0
+	for _, typ := range []string{"SendStream", "ReceiveStream"} {
+		mu := c.fld("", typ, "mutex")
+		tn := c.named("", typ)
+		isMu := func(name string) IP {
+			return func(in ssa.Instruction) bool {
+				ci, ok := in.(ssa.CallInstruction)
+				if !ok {
+					return false
+				}
+				if _, isDefer := in.(*ssa.Defer); isDefer {
+					return false
+				}
+				o := calleeObj(ci.Common())
+				if o == nil || o.Name() != name || o.Pkg() == nil || o.Pkg().Path() != "sync" || len(ci.Common().Args) == 0 {
+					return false
+				}
+				fa, ok := ci.Common().Args[0].(*ssa.FieldAddr)
+				return ok && fieldOfAddr(fa) == mu
+			}
+		}
+		callback := func(in ssa.Instruction) bool {
+			ci, ok := in.(ssa.CallInstruction)
+			if !ok {
+				return false
+			}
+			if _, isGo := in.(*ssa.Go); isGo {
+				return false
+			}
+			cm := ci.Common()
+			if !cm.IsInvoke() {
+				return false
+			}
+			nt := namedOf(cm.Value.Type())
+			return nt != nil && nt.Obj().Name() == "streamSender" && nt.Obj().Pkg() != nil && nt.Obj().Pkg().Path() == modPath
+		}
+		for _, f := range c.P.ScopeFuncs() {
+			if funcPkgPath(f) != modPath || f.Signature.Recv() == nil {
+				continue
+			}
+			if rn := namedOf(f.Signature.Recv().Type()); rn == nil || rn.Obj() != tn {
+				continue
+			}
+			locks := findInstrsLocal(f, isMu("Lock"))
+			if len(locks) == 0 {
+				continue
+			}
+			n += len(locks)
+			c.FuncsSet[funcName(f)] = true
+			c.cut(R, "outside:"+funcName(f)+" calls back into the connection only after releasing the stream mutex",
+				&Cut{Fn: f, Start: isMu("Lock"), Target: callback, Barrier: isMu("Unlock")},
+				"onHasStreamData / onHasStreamControlFrame / onStreamCompleted take the framer's or the streams map's lock, whose holders call back into the stream: under the stream mutex this is a lock-order inversion")
+		}
+	}
+	c.Floor(R, "acquisitions of a stream mutex", n, 15)
+}
+
 // valueOf: the instruction as a value (nil if it is not one).
 func valueOf(in ssa.Instruction) ssa.Value {
 	v, _ := in.(ssa.Value)
